@@ -599,6 +599,11 @@ func sendUDP(r *stack.Route, data buffer.VectorisedView, localPort, remotePort u
 			xsum = header.Checksum(v, xsum)
 		}
 		udp.SetChecksum(^udp.CalculateChecksum(xsum, length))
+		// A transmitted checksum of zero means "no checksum" (RFC 768) and is
+		// forbidden over IPv6 (RFC 8200): a computed zero is sent as all ones.
+		if udp.Checksum() == 0 {
+			udp.SetChecksum(0xffff)
+		}
 	}
 
 	// Track count of packets sent.
